@@ -618,7 +618,14 @@ class VM:
             if not isinstance(obj, JSObject):
                 raise JSTypeError("Cannot use 'in' operator on non-object")
             key_str = to_string(key)
-            self.stack.append(obj.has(key_str))
+            found = False
+            current = obj
+            while isinstance(current, JSObject):
+                if current.has(key_str):
+                    found = True
+                    break
+                current = current._prototype
+            self.stack.append(found)
 
         # Control flow
         elif op == OpCode.JUMP:
